@@ -1,45 +1,14 @@
-# Per-property configuration of the checks: stages (build variant, harness, case counts per tier).
+# Per-property configuration of the checks. Each bin/props/cXX.py fragment adds PROPS['Cxx'] = dict(...):
+#   technique, level_text, level_note, rule, floor, assumptions, stages=[dict(name, variant, harness, quick, thorough, ...)]
+# Stage keys: name, variant (asan|asan-nd|tsan|plain|plain-d), harness (file in harness/), quick/thorough (case counts),
+#   optional: budget (CPU s per case), jobs (parallel workers), opts (dict passed as --opt k=v), wall (s), max_restarts, cxxflags.
 # Case counts are sized for <= 1-2 min (quick) / <= 10-15 min (thorough) on 16 cores.
+import os, glob
 
 PROPS = {}
 NOT_APPLICABLE = {}
 HOOK_COMMITS = ['e131362']
 
-PROPS['C01'] = dict(
-    technique='sanitizer-instrumented fuzzing (ASan + UBSan bounds/div0, asserts on) with CPU-time and allocation oracles',
-    level_text=('generated, mutated and exhaustively truncated/byte-flipped music files are loaded and then driven through random '
-                'play/seek/tick/song-switch/meta sequences in an ASan+UBSan build; exceptions through the C API, return-value contracts, '
-                'CPU-time budget per case and single-allocation size are monitored. Holds only on the executions produced.'),
-    level_note=('trusted: clang 14 ASan/UBSan, the harness generators; not covered: inputs the generators do not reach, intra-object '
-                'overflows, files > 64 KiB; endless looping is only combined with files <= 256 bytes (see DESIGN.md C01)'),
-    rule=('cases are (file bytes <= 64 KiB, preselected song, <= 40 follow-up calls) from mutated well-formed '
-          'SMF/RMI/GMF/MUS/XMI/CMF/IMF/RSXX files, grammar-aware hostile files, random bytes behind each magic, and '
-          'exhaustive truncation / single-byte substitution sweeps of small files; a case is non-trivial when the '
-          'input got past a format detector; distinct = distinct (format, load outcome, error class, follow-up kinds, end reached)'),
-    floor=50,
-    assumptions=['ASan+UBSan(bounds,null,div0) report = memory error; CPU budget 20 s/case stands in for "time proportional to input"',
-                 'single allocation request > 256 MiB for an input <= 64 KiB counts as disproportionate memory'],
-    stages=[
-        dict(name='fuzz', variant='asan', harness='c01_music.cpp', quick=16000, thorough=250000),
-        dict(name='sweep', variant='asan', harness='c01_music.cpp', quick=8000, thorough=8000, opts=dict(files=4)),
-        dict(name='sweep-all', variant='asan', harness='c01_music.cpp', quick=0, thorough=24000, opts=dict(files=12)),
-        dict(name='fuzz-nd', variant='asan-nd', harness='c01_music.cpp', quick=0, thorough=100000),
-    ],
-)
-
-PROPS['C03'] = dict(
-    technique='sanitizer-instrumented random API-sequence exploration with return-contract monitor',
-    level_text=('random call sequences (<= 400 calls) over the whole exported API with boundary-biased arguments, NULL devices, exactly sized '
-                'heap out-buffers, every emulator id and chip counts 1..100 run in an ASan+UBSan build with asserts on; a table of calls '
-                'documented to fail is checked on every return; exceptions, CPU budget and sanitizer reports are refuting events.'),
-    level_note=('trusted: clang 14 ASan/UBSan; bank handles used after removeBank/bank load are caller misuse and not generated; looping stays '
-                'disabled (C01/C09 cover it); audio volume per case is capped by emulator cost'),
-    rule=('one case = fresh instance (rate, emulator, chips) + 20..400 API calls; distinct = distinct (function, argument class, return class, '
-          'device NULL?) triples plus distinct call bigrams observed over the whole run; a case is non-trivial when >= 8 different functions ran'),
-    floor=300,
-    assumptions=['documented failure values are those of include/opnmidi.h; setTrackOptions(solo) of an absent track is three-valued'],
-    stages=[
-        dict(name='seq', variant='asan', harness='c03_api.cpp', quick=2500, thorough=40000, budget=60),
-        dict(name='seq-nd', variant='asan-nd', harness='c03_api.cpp', quick=0, thorough=15000, budget=60),
-    ],
-)
+_here = os.path.dirname(os.path.abspath(__file__))
+for _f in sorted(glob.glob(os.path.join(_here, 'props', 'c*.py'))):
+    exec(compile(open(_f).read(), _f, 'exec'))
